@@ -10,10 +10,13 @@
 package c06
 
 import (
+	"context"
 	"crypto"
 	"crypto/x509"
 	"embed"
+	"encoding/json"
 	"encoding/pem"
+	"fmt"
 	"net/http"
 	"net/url"
 	"strings"
@@ -22,6 +25,7 @@ import (
 
 	jose "github.com/go-jose/go-jose/v4"
 
+	"github.com/zitadel/oidc/v3/pkg/client/rp"
 	"github.com/zitadel/oidc/v3/pkg/oidc"
 	"github.com/zitadel/oidc/v3/pkg/op"
 
@@ -74,7 +78,8 @@ func buildSpace() engine.Space {
 		engine.D("private", "none", "x", "colliding", "colliding-all"),
 		// host-mixed: precursor legs on op.example, final request on alt.example; host-mixed-rev: the other way round
 		engine.D("issuer", "static", "static-althost", "host", "host-alt", "host-mixed", "host-mixed-rev"),
-		engine.D("caps", "all", "no-ui"),
+		// no-jp: the storage lacks op.JWTProfileTokenStorage (jwt-bearer access tokens are then opaque)
+		engine.D("caps", "all", "no-ui", "no-jp"),
 		engine.D("nonce", "n-1", "absent"),
 		engine.D("exvar", "idt", "rt", "at", "idt+aud", "at+aud"),
 		engine.D("rnarrow", "same", "drop-userinfo", "drop-openid"),
@@ -208,6 +213,9 @@ func skip(v engine.Vec) bool {
 	}
 	if (nd("attype") || nd("atlt")) && !hasAT(flow) {
 		return true
+	}
+	if g("caps") == "no-jp" && flow != "jwt" {
+		return true // only the jwt-bearer grant asks the storage for the token type
 	}
 	if nd("probe") {
 		switch g("probe") {
@@ -369,8 +377,11 @@ func (w *worker) rigFor(c caseT) *rig.Rig {
 		return r
 	}
 	caps := refstore.CapAll
-	if c.caps == "no-ui" {
+	switch c.caps {
+	case "no-ui":
 		caps = refstore.CapAll &^ refstore.CapUI
+	case "no-jp":
+		caps = refstore.CapAll &^ refstore.CapJP
 	}
 	o := rig.Opts{Caps: &caps, Options: []op.Option{
 		op.WithAccessTokenVerifierOpts(op.WithSupportedAccessTokenSigningAlgorithms(allAlgs...)),
@@ -470,8 +481,10 @@ func (d *driver) rotateNow() {
 }
 
 // prime runs one complete implicit id_token issuance on rg (signing an ID token with rg's current key) and, on the
-// provider under test, reads /keys like a polling relying party. Returns "" or the step that failed.
-func (d *driver) prime(rg *rig.Rig) (string, *rig.Resp) {
+// provider under test, reads /keys like a polling relying party. Returns "" or the step that failed. The ID token
+// of this earlier issuance is judged too (header = rg's signing key of that moment, the library's RP verifier with
+// rg's /keys document): every issuance of the history counts, not only the last one.
+func (d *driver) prime(rg *rig.Rig) (string, *rig.Resp, *verdict) {
 	do := func(req *http.Request) *rig.Resp {
 		req.Host = d.hostFor(false)
 		return rg.Do(d.router, req)
@@ -481,25 +494,39 @@ func (d *driver) prime(rg *rig.Rig) (string, *rig.Resp) {
 	resp := do(rig.Req("GET", "/authorize", q, nil))
 	u := resp.Location()
 	if resp.Status/100 != 3 || u == nil || !strings.HasPrefix(u.Path, "/login") {
-		return "prime-authorize", resp
+		return "prime-authorize", resp, nil
 	}
 	id := u.Query().Get("authRequestID")
 	time.Sleep(time.Second)
 	if err := rg.Core.Login(id, "u2"); err != nil {
-		return "prime-login", resp
+		return "prime-login", resp, nil
 	}
 	time.Sleep(time.Second)
 	resp = do(rig.Req("GET", "/authorize/callback", url.Values{"id": {id}}, nil))
-	if fragmentParams(resp)["id_token"] == "" {
-		return "prime-callback", resp
+	idt := fragmentParams(resp)["id_token"]
+	if idt == "" {
+		return "prime-callback", resp, nil
 	}
-	if rg == d.r {
-		if resp = do(rig.Req("GET", "/keys", nil, nil)); resp.Status != 200 {
-			return "prime-keys", resp
-		}
+	resp = do(rig.Req("GET", "/keys", nil, nil)) // also what a polling relying party does before a rotation
+	var set jose.JSONWebKeySet
+	if resp.Status != 200 || json.Unmarshal(resp.Body, &set) != nil {
+		return "prime-keys", resp, nil
+	}
+	ks := &jwks{keys: set.Keys}
+	issuer := rig.Issuer
+	if rg == d.r && strings.HasPrefix(d.c.issuer, "host") {
+		issuer = "https://" + d.hostFor(false)
+	}
+	sk := rg.Core.Cfg.Sign
+	if p, ok := splitJWT(idt); !ok || p.alg != string(sk.Alg) || p.kid != sk.KID {
+		return "", nil, &verdict{"id-header", fmt.Sprintf("ID token of the earlier issuance: header %+v, the storage's signing key then was alg=%q kid=%q", p, sk.Alg, sk.KID)}
+	}
+	v := rp.NewIDTokenVerifier(issuer, "web", ks, rp.WithSupportedSigningAlgorithms(ks.algs()...), rp.WithNonce(func(context.Context) string { return "n-prime" }))
+	if _, err := rp.VerifyIDToken[*oidc.IDTokenClaims](context.Background(), idt, v); err != nil {
+		return "", nil, &verdict{"id-verify-" + errClass(err), fmt.Sprintf("the library's RP verifier (issuer %s, keys from /keys at that moment) rejects the ID token of the earlier issuance: %v", issuer, err)}
 	}
 	time.Sleep(time.Second)
-	return "", nil
+	return "", nil, nil
 }
 
 func (d *driver) expectedIssuer() string {
@@ -569,7 +596,8 @@ type flowOut struct {
 	now      time.Time         // instant of the final request
 	before   map[string]bool   // access-token ids stored before the final request
 	exp      expect
-	otherAT  string // an access token from an earlier response of the same flow (for the other-at probe)
+	history  *verdict // a token of an earlier issuance of the history (rotate dimension) is wrong
+	otherAT  string   // an access token from an earlier response of the same flow (for the other-at probe)
 	assertJW string
 }
 
@@ -634,8 +662,13 @@ func (d *driver) run() (o flowOut) {
 		if c.rotate == "twin-samekid" {
 			rg = d.twin
 		}
-		if stage, resp := d.prime(rg); stage != "" {
+		stage, resp, vd := d.prime(rg)
+		if stage != "" {
 			o.stage, o.resp = stage, resp
+			return
+		}
+		if vd != nil {
+			o.history = vd
 			return
 		}
 		if c.rotate == "samekid-pre" {
@@ -856,7 +889,7 @@ func (w *worker) runCase(v engine.Vec) engine.Result {
 func TestCheck(t *testing.T) {
 	c := engine.Start(t, "C06")
 	thoroughTier = c.Thorough()
-	c.SetRule("E1: full product flow(10) x access-token type x signing key (ES256/ES384/ES512/EdDSA) x router, crossed with every <=k deviations of the other configuration dimensions (RSA/PSS key, clock skew, ID/AT lifetimes, scope shape, userinfo assertion, private claims, issuer strategy/host, storage capability set, nonce, exchange subject-token kind, refresh narrowing, negative probe); each vector = one complete flow over HTTP on a fresh reference storage inside a synctest bubble; the final response is judged by rp.VerifyTokens/VerifyIDToken + op.VerifyAccessToken against the provider's /keys document, a reference claim table and opaque-token decryption")
+	c.SetRule("E1: full product flow(10) x access-token type x signing key (ES256/ES384/ES512/EdDSA) x router, crossed with every <=k deviations of the other configuration dimensions (every RSA/PSS/P-384/P-521 algorithm, clock skew incl. 1 s, ID/AT lifetimes down to 2 s / 1 s, scope shape, userinfo assertion, private claims incl. one custom claim per registered claim name, issuer strategy/host incl. Host changing between the legs of every flow in both directions, storage capability set, nonce, exchange subject-token kind, refresh narrowing, negative probe, key history of the provider: rotation to a new kid between the legs, same kid with other key material after a priming issuance on this or on a second provider); each vector = one complete flow over HTTP on a fresh reference storage inside a synctest bubble; the final response is judged by rp.VerifyTokens/VerifyIDToken + op.VerifyAccessToken against the provider's /keys document, a reference claim table and opaque-token decryption")
 	c.Assume("refstore (reference storage) is correct and part of the trusted base; it sets userinfo.Subject under scope openid like the repository's example storage",
 		"go standard library crypto and go-jose primitives are correct",
 		"the integrator lists the signing algorithm in the provider's verifier options when it is not RS256/ES256/PS256",
@@ -868,8 +901,9 @@ func TestCheck(t *testing.T) {
 		groups = append(groups,
 			[]string{"flow", "attype", "scopes", "uiassert", "caps", "private"},
 			[]string{"flow", "attype", "router", "skew", "idlt", "atlt", "probe"},
-			[]string{"flow", "key", "issuer", "exvar", "nonce"})
-		ks = []int{2, 1, 1, 1}
+			[]string{"flow", "key", "issuer", "exvar", "nonce"},
+			[]string{"flow", "attype", "router", "rotate", "issuer", "exvar"})
+		ks = []int{2, 1, 1, 1, 1}
 	}
 	c.RunE1(engine.E1{
 		Part:   "flows",
